@@ -578,4 +578,4 @@ def to_z(v):
 BUILTIN_NAMES = {"array_of", "min", "max", "abs", "int", "float", "len", "range", "prange", "isnan", "isfinite", "isinf", "all", "any",
                  "implies", "eq", "old", "sum", "floor", "ceil", "bool", "list", "tuple", "enumerate", "zip", "round",
                  "literal_eval", "print", "isinstance", "str", "sorted", "map", "rint", "sqrt", "bit", "forall_cells",
-                 "shape_eq", "unchanged", "trunc", "dict", "type", "iff", "tok", "sum32", "Window", "repr", "Margins", "filter", "set", "written_file"}
+                 "shape_eq", "unchanged", "trunc", "dict", "type", "iff", "tok", "sum32", "Window", "repr", "Margins", "filter", "set", "written_file", "astuple"}
